@@ -186,7 +186,7 @@ def dup_root_models(payload):
 
 
 def in_known_class(family, payload, kind, opts, formatters):
-    if opts.get("keep_model_order"):
+    if opts.get("keep_model_order") and family != "keep-order-modular":
         return True  # C11-keep-model-order (the reordering loop may not terminate; C01_keep_order_loop_refuted)
     if opts.get("reuse_model") and not kind.startswith("pydantic") and dup_root_models(payload):
         return True  # C01-reuse-model-duplicate-root: the second of two identical named scalars/arrays becomes a class without members, the template reads fields[0]
@@ -295,6 +295,21 @@ def text_sweep():
         yield "text-sweep-graphql", sdl, sdl, "graphql"
 
 
+def keep_order_modular():
+    """--keep-model-order on multi-module definition sets whose inheritance stays inside one sub-module (bases defined in the same
+    module, so the reordering pass has everything it waits for): generation must terminate"""
+    obj = lambda i: {"type": "object", "properties": {f"m{i}": {"type": "integer"}}}
+    for mod in ("zoo", "a.b"):
+        for nd in (1, 2, 3):
+            defs = {f"{mod}.Animal": obj(0), "Flat": obj(9)}
+            for i in range(nd):
+                defs[f"{mod}.{['Cat', 'Dog', 'Eel'][i]}"] = {"allOf": [{"$ref": f"#/definitions/{mod}.Animal"}], **obj(i + 1)}
+            defs["Keeper"] = {"type": "object", "properties": {"pet": {"$ref": f"#/definitions/{mod}.Cat"}}}
+            yield "keep-order-modular", {"definitions": defs}, json.dumps({"definitions": defs}), "jsonschema"
+            rev = dict(reversed(list(defs.items())))
+            yield "keep-order-modular", {"definitions": rev}, json.dumps({"definitions": rev}), "jsonschema"
+
+
 def name_sweep():
     """one character of every kind that is digit-like, combining, connecting, invisible or otherwise special to identifiers, at the
     start, inside and at the end of a property name, an enum value, a definition name and a title"""
@@ -368,6 +383,15 @@ def falsify(ctx):
         for kind in (KINDS if ctx.thorough else [KINDS[i % len(KINDS)], KINDS[(i + 2) % len(KINDS)]]):
             for o in ({"use_schema_description": True, "use_field_description": True}, {"use_schema_description": True, "use_double_quotes": True}):
                 go(family, payload, inp, ft, False, family != "text-sweep-graphql", kind, dict(o), ())
+    from harness.props import c10
+    for i, t in enumerate(RUNS):
+        for pn, k1, k2 in (("kind", t, t + "2"), (t if t.strip() else "x-1", "cat", "dog")):
+            doc = c10.disc_schema(pn, k1, k2)
+            for kind in (KINDS if ctx.thorough else [KINDS[-1], KINDS[i % 4]]):   # msgspec writes tags into the class header: always
+                go("discriminator-text", doc, json.dumps(doc), "jsonschema", False, False, kind, {}, ())
+    for i, (family, payload, inp, ft) in enumerate(list(keep_order_modular())):
+        for kind in (KINDS if ctx.thorough else [KINDS[i % len(KINDS)], KINDS[(i + 3) % len(KINDS)]]):
+            go(family, payload, inp, ft, True, True, kind, {"keep_model_order": True}, ())
     for i, (family, payload, inp, ft) in enumerate(list(name_sweep())):
         for kind in (KINDS if ctx.thorough else [KINDS[i % len(KINDS)]]):
             go(family, payload, inp, ft, False, False, kind, {}, ())
